@@ -5,15 +5,20 @@
    (the model's step is the integer interpreter's step, written back as canonical limbs) and the
    integer interpreter stays inside [0, 2^bits) (`sem_ok`).  Each case is a corollary of the
    characterising lemma of the operation (PfC01, PfC05/PfShift, PfBits, PfConv, PfBytes,
-   PfBaseConv/PfC09, PfStr, PfFloat, PfC04c).  For the opaque opcodes the equation holds by
-   definition of `sem`.  Lifted to steps (`step_canon`, `step_refines`) and, by induction over
+   PfBaseConv/PfC09, PfStr, PfFloat, PfC04c, PfMul, PfDiv/PfC03Closed, PfC10Closed, PfGcd/PfC12Closed,
+   PfRedc/PfC11).  For the two opaque opcodes (wrapping_pow, root) the equation holds by definition
+   of `sem`.  Lifted to steps (`step_canon`, `step_refines`) and, by induction over
    the program, to histories of any length (`history_canon`, `C04a_all`). *)
 From Coq Require Import ZArith List Bool Lia.
 From RV.Model Require Import Base Word Opaque History.
 From RV.Model Require Add Shift Bits Conv Bytes BaseConv Str Float Gen.
 From RV.Proofs Require Import BaseFacts.
 From RV.Proofs Require PfC01 PfShift PfC05 PfBits PfC06 PfConv PfC07 PfBytes PfC08 PfBaseConv
-                       PfPositional PfC09 PfStr PfFloat PfC04b PfC04c.
+                       PfPositional PfC09 PfStr PfFloat PfC04b PfC04c
+                       PfMul PfDiv PfUDiv PfC03Closed PfModular PfC10 PfC10Closed
+                       PfGcdUint PfGcd PfGcdMatrix PfC12Closed PfRedc PfC11.
+From RV.Model Require Mul UDiv Gcd Modular Redc Div.
+From RV.Run Require RunC11.
 From RV.Run Require RunC05 RunC06 RunC08 RunC09 RunC18.
 From RV.Run Require Import RunC04a.
 Local Open Scope Z_scope.
@@ -89,6 +94,9 @@ Section Ops.
   Let Rb := canon_range bits b Hb0 Hc.
   Let Rc := canon_range bits c Hb0 Hd.
   Let Hp := pow2_pos bits Hb0.
+  Let Wa := PfC07.canon_inW bits a Ha.
+  Let Wb := PfC07.canon_inW bits b Hc.
+  Let Wc := PfC07.canon_inW bits c Hd.
 
   Local Ltac start := unfold sem, zsem; cbv zeta.
 
@@ -718,40 +726,70 @@ Section Ops.
 
   Local Ltac opaque := split; [reflexivity|]; unfold zsem; cbv zeta.
 
-  Lemma ok_WrMul : ok bits (sem WrMul bits a b c imm) (zsem WrMul bits (eval a) (eval b) (eval c) imm).
-  Proof. opaque. cbn. apply modp2_range; lia. Qed.
-  Lemma ok_WrDiv : ok bits (sem WrDiv bits a b c imm) (zsem WrDiv bits (eval a) (eval b) (eval c) imm).
+Lemma ok_WrMul : ok bits (sem WrMul bits a b c imm) (zsem WrMul bits (eval a) (eval b) (eval c) imm).
   Proof.
-    opaque. unfold z_wrapping_div. destruct (Z.eqb_spec (eval b) 0); [exact I|]. cbn.
-    split; [apply Z.div_pos; lia|]. apply Z.le_lt_trans with (eval a); [|lia].
-    apply Z.div_le_upper_bound; nia.
+    start. destruct (PfMul.wrapping_mul_spec bits a b Hb0 (proj1 Ha) (proj1 Hc) Wa Wb) as (r & -> & C & E).
+    cbn [obind]. unfold z_wrapping_mul. apply ok_wr; auto. rewrite E, modp2_spec by lia. reflexivity.
   Qed.
-  Lemma ok_WrRem : ok bits (sem WrRem bits a b c imm) (zsem WrRem bits (eval a) (eval b) (eval c) imm).
+Lemma ok_WrDiv : ok bits (sem WrDiv bits a b c imm) (zsem WrDiv bits (eval a) (eval b) (eval c) imm).
   Proof.
-    opaque. unfold z_wrapping_rem. destruct (Z.eqb_spec (eval b) 0); [exact I|]. cbn.
-    pose proof (Z.mod_pos_bound (eval a) (eval b) ltac:(lia)). lia.
+    start. unfold UDiv.wrapping_div, UDiv.div_rem, z_wrapping_div.
+    destruct (Z.eqb_spec (eval b) 0) as [E0|N0].
+    - rewrite PfDiv.div_kernel_zero by auto. apply ok_panic.
+    - destruct (PfC03Closed.DivKernelOK_holds a b Wa Wb N0) as (q & r & -> & Lq & Lr & Wq & Wr & Eq & Er).
+      cbn [obind fst]. apply ok_wr; auto. repeat split; auto; [rewrite Lq; apply Ha|].
+      rewrite Eq. apply Z.le_lt_trans with (eval a); [|lia]. apply Z.div_le_upper_bound; nia.
+  Qed.
+Lemma ok_WrRem : ok bits (sem WrRem bits a b c imm) (zsem WrRem bits (eval a) (eval b) (eval c) imm).
+  Proof.
+    start. unfold UDiv.wrapping_rem, UDiv.div_rem, z_wrapping_rem.
+    destruct (Z.eqb_spec (eval b) 0) as [E0|N0].
+    - rewrite PfDiv.div_kernel_zero by auto. apply ok_panic.
+    - destruct (PfC03Closed.DivKernelOK_holds a b Wa Wb N0) as (q & r & -> & Lq & Lr & Wq & Wr & Eq & Er).
+      cbn [obind snd]. apply ok_wr; auto. repeat split; auto; [rewrite Lr; apply Hc|].
+      rewrite Er. pose proof (Z.mod_pos_bound (eval a) (eval b) ltac:(lia)). lia.
   Qed.
   Lemma ok_WrPow : ok bits (sem WrPow bits a b c imm) (zsem WrPow bits (eval a) (eval b) (eval c) imm).
   Proof.
     opaque. cbn. apply pow_mod2_range.
   Qed.
-  Lemma ok_Gcd : ok bits (sem Gcd bits a b c imm) (zsem Gcd bits (eval a) (eval b) (eval c) imm).
-  Proof. opaque. cbn. pose proof (gcd_le (eval a) (eval b)). lia. Qed.
-  Lemma ok_AddMod : ok bits (sem AddMod bits a b c imm) (zsem AddMod bits (eval a) (eval b) (eval c) imm).
+Lemma ok_Gcd : ok bits (sem Gcd bits a b c imm) (zsem Gcd bits (eval a) (eval b) (eval c) imm).
   Proof.
-    opaque. cbn. destruct (Z.eqb_spec (eval c) 0); [lia|].
-    pose proof (Z.mod_pos_bound (eval a + eval b) (eval c) ltac:(lia)). lia.
+    start. rewrite (PfGcd.gcd_spec PfC12Closed.DivKernelOK_holds PfGcdMatrix.LehmerStepOK_holds bits a b Hb0 Ha Hc).
+    cbn [obind]. apply ok_wr_u. pose proof (gcd_le (eval a) (eval b)). lia.
   Qed.
-  Lemma ok_MulMod : ok bits (sem MulMod bits a b c imm) (zsem MulMod bits (eval a) (eval b) (eval c) imm).
+Lemma ok_returns o v : PfC10.returns bits o v -> ok bits (do r <- o ; wr r) (zw v).
+  Proof. intros (r & -> & C & E). cbn [obind]. now apply ok_wr. Qed.
+  Lemma ok_AddMod : ok bits (sem AddMod bits a b c imm) (zsem AddMod bits (eval a) (eval b) (eval c) imm).
+  Proof. start. apply ok_returns. now apply PfC10Closed.add_mod_value_closed. Qed.
+Lemma ok_MulMod : ok bits (sem MulMod bits a b c imm) (zsem MulMod bits (eval a) (eval b) (eval c) imm).
+  Proof. start. apply ok_returns. now apply PfC10Closed.mul_mod_value_closed. Qed.
+Lemma pow_mod_pos_spec x e m : 0 < m -> pow_mod_pos x e m = x ^ Zpos e mod m.
   Proof.
-    opaque. cbn. destruct (Z.eqb_spec (eval c) 0); [lia|].
-    pose proof (Z.mod_pos_bound (eval a * eval b) (eval c) ltac:(lia)). lia.
+    intros Hm. induction e as [e IH|e IH|]; cbn [pow_mod_pos].
+    - rewrite IH. rewrite Pos2Z.inj_xI.
+      replace (x ^ (2 * Z.pos e + 1)) with (x ^ Z.pos e * x ^ Z.pos e * x)
+        by (rewrite Z.pow_add_r, Z.pow_1_r, <- Z.pow_twice_r by lia; reflexivity).
+      rewrite <- Z.mul_mod by lia. rewrite Z.mul_mod_idemp_l by lia. reflexivity.
+    - rewrite IH. rewrite Pos2Z.inj_xO, Z.pow_twice_r. rewrite <- Z.mul_mod by lia. reflexivity.
+    - now rewrite Z.pow_1_r.
+  Qed.
+  Lemma pow_mod_spec x e m : 0 < m -> 0 <= e -> pow_mod x e m = x ^ e mod m.
+  Proof.
+    intros Hm He. destruct e as [|e|e]; cbn [pow_mod]; [reflexivity|now apply pow_mod_pos_spec|lia].
   Qed.
   Lemma ok_PowMod : ok bits (sem PowMod bits a b c imm) (zsem PowMod bits (eval a) (eval b) (eval c) imm).
   Proof.
-    opaque. cbn. destruct ((bits =? 0) || (eval c <=? 1)) eqn:E; [lia|].
-    apply orb_false_iff in E. destruct E as [_ E]. apply Z.leb_gt in E.
-    pose proof (pow_mod_range (eval a) (eval b) (eval c) E). lia.
+    start. unfold z_pow_mod.
+    replace (if (bits =? 0) || (eval c <=? 1) then 0 else pow_mod (eval a) (eval b) (eval c))
+      with (if eval c =? 0 then 0 else eval a ^ eval b mod eval c).
+    { apply ok_returns. now apply PfC10Closed.pow_mod_value_closed. }
+    destruct (Z.eqb_spec (eval c) 0) as [E0|N0].
+    - rewrite E0. cbn [Z.leb Z.compare]. now rewrite orb_true_r.
+    - destruct (Z.eqb_spec bits 0) as [Eb|Nb]; [exfalso; rewrite Eb in *; change (2 ^ 0) with 1 in *; lia|].
+      cbn [orb]. destruct (Z.leb_spec (eval c) 1).
+      + replace (eval c) with 1 by lia. apply Z.mod_1_r.
+      + symmetry. apply pow_mod_spec; lia.
   Qed.
   Lemma ok_Root : ok bits (sem Root bits a b c imm) (zsem Root bits (eval a) (eval b) (eval c) imm).
   Proof.
@@ -759,16 +797,69 @@ Section Ops.
     destruct (Z.eqb_spec (eval a) 0); [lia|]. destruct (bits <=? imm1 imm); [lia|].
     pose proof (iroot_le (eval a) (imm1 imm) ltac:(lia) ltac:(lia)). lia.
   Qed.
+Lemma hd_mod md : md <> [] -> Forall inW md -> hd 0 md = eval md mod B.
+  Proof.
+    intros Hne Hw. destruct md as [|m0 t]; [contradiction|]. inversion Hw; subst. cbn [hd eval].
+    symmetry. apply div_mod_lin. assumption.
+  Qed.
+  Lemma redc_inverse m k : 0 < m -> Z.odd m = true -> 0 <= k ->
+    (2 ^ k * pow_mod (Z.shiftr (m + 1) 1) k m) mod m = 1 mod m.
+  Proof.
+    intros Hm Ho Hk. rewrite pow_mod_spec by lia. rewrite Z.mul_mod_idemp_r by lia.
+    rewrite Z.shiftr_div_pow2 by lia. change (2 ^ 1) with 2.
+    rewrite <- Z.pow_mul_l.
+    assert (E : 2 * ((m + 1) / 2) = m + 1).
+    { apply Z.odd_spec in Ho. destruct Ho as [j Ej].
+      replace (m + 1) with ((j + 1) * 2) by lia. rewrite Z.div_mul by lia. lia. }
+    rewrite E. rewrite Zpow_facts.Zpower_mod by lia.
+    replace ((m + 1) mod m) with (1 mod m).
+    2:{ replace (m + 1) with (1 + 1 * m) by lia. now rewrite Z_mod_plus_full. }
+    rewrite <- Zpow_facts.Zpower_mod by lia. now rewrite Z.pow_1_l.
+  Qed.
+  Lemma inv_odd inv m0 : (inv * m0) mod B = B - 1 -> Z.odd m0 = true.
+  Proof.
+    intros E. destruct (Z.odd m0) eqn:O; [reflexivity|exfalso].
+    assert (Hev : Z.even m0 = true) by (rewrite <- Z.negb_odd, O; reflexivity).
+    apply Z.even_spec in Hev. destruct Hev as [j ->].
+    pose proof (Z.div_mod (inv * (2 * j)) B ltac:(rewrite B_val; lia)) as D. rewrite E in D.
+    rewrite B_val in D. set (t := inv * j) in *. replace (inv * (2 * j)) with (2 * t) in D by (unfold t; ring).
+    set (q := (2 * t) / 18446744073709551616) in *. lia.
+  Qed.
+  Lemma odd_eval (md : list Z) : md <> [] -> Z.odd (hd 0 md) = true -> Z.odd (eval md) = true.
+  Proof.
+    destruct md as [|m0 t]; [contradiction|]. intros _ O. cbn [hd] in O.
+    cbn [eval]. rewrite B_val. rewrite Z.odd_add, O.
+    replace (18446744073709551616 * eval t) with (2 * (9223372036854775808 * eval t)) by ring.
+    now rewrite Z.odd_mul.
+  Qed.
+
   Lemma ok_MulRedc : ok bits (sem MulRedc bits a b c imm) (zsem MulRedc bits (eval a) (eval b) (eval c) imm).
   Proof.
-    opaque. unfold z_mul_redc. destruct (bits =? 0); [cbn; lia|].
-    destruct (((imm1 imm * (eval c mod B)) mod B =? B - 1) && (eval a <? eval c) && (eval b <? eval c)) eqn:E;
-      [|exact I].
-    apply andb_true_iff in E. destruct E as [E _]. apply andb_true_iff in E. destruct E as [_ E].
-    apply Z.ltb_lt in E. unfold zrange, zw.
-    assert (Hc0 : 0 < eval c) by lia.
-    pose proof (Z.mod_pos_bound (eval a * eval b * pow_mod (Z.shiftr (eval c + 1) 1) (64 * nlimbs bits) (eval c))
-                                (eval c) Hc0). lia.
+    start. unfold Redc.uint_mul_redc, z_mul_redc. destruct (Z.eqb_spec bits 0) as [E0|N0].
+    { cbn [obind]. rewrite PfC07.uZERO_eq by lia. apply ok_wr_u. lia. }
+    assert (Hbp : 0 < bits) by lia.
+    assert (Hne : c <> []).
+    { intros E. pose proof (proj1 Hd) as Hl. rewrite E in Hl. cbn in Hl. pose proof (nlimbs_bounds bits Hbp).
+      unfold nlimbsN in Hl. lia. }
+    pose proof (proj1 Ha) as La. pose proof (proj1 Hc) as Lb. pose proof (proj1 Hd) as Lc.
+    rewrite <- (hd_mod c Hne Wc).
+    destruct (((imm1 imm * hd 0 c) mod B =? B - 1) && (eval a <? eval c) && (eval b <? eval c)) eqn:P.
+    - assert (P' : RunC11.pre (eval a) (eval b) (eval c) (imm1 imm) (hd 0 c) = true).
+      { unfold RunC11.pre. rewrite <- B_pow. exact P. }
+      apply PfC11.pre_true in P'. destruct P' as (Hinv & Hlta & Hltb).
+      destruct (PfRedc.mul_redc_spec a b c (imm1 imm) ltac:(congruence) ltac:(congruence) Wa Wb Wc Hinv Hlta Hltb)
+        as (r & -> & Lr & Wr & Rr & Cg). cbn [obind].
+      rewrite PfC11.from_limbs_checked_ok by (auto; lia). cbn [obind].
+      assert (Cr : canon bits r) by (repeat split; auto; [congruence|lia]).
+      apply ok_wr; auto.
+      assert (Hodd : Z.odd (eval c) = true).
+      { apply odd_eval; [exact Hne|]. apply (inv_odd (imm1 imm)). exact Hinv. }
+      apply (PfRedc.redc_value (eval r) (B ^ Z.of_nat (length c)) _ (eval a * eval b) (eval c)); auto.
+      rewrite Lc, nlimbsN_Z, B_pow, <- Z.pow_mul_r by (try apply nlimbs_nonneg; lia).
+      apply redc_inverse; [lia | exact Hodd | pose proof (nlimbs_nonneg bits Hb0); lia].
+    - assert (P' : RunC11.pre (eval a) (eval b) (eval c) (imm1 imm) (hd 0 c) = false).
+      { unfold RunC11.pre. rewrite <- B_pow. exact P. }
+      rewrite PfC11.mul_redc_bad by (auto; congruence). split; [reflexivity|exact I].
   Qed.
 
   Theorem sem_ok o : ok bits (sem o bits a b c imm) (zsem o bits (eval a) (eval b) (eval c) imm).
